@@ -228,11 +228,11 @@ pub trait Flavour: 'static {
     fn search(root: &Self::Node, cfg: &SearchCfg, m: Meth<Self>) -> SearchRes<Self>;
     fn order(root: &Self::Node, cfg: &OrderCfg, m: Meth<Self>) -> OrderRes<Self>;
     /// the same search object asked twice (search_path / search for pfs), with `between` run in between
-    fn search_path_twice(root: &Self::Node, cfg: &SearchCfg, between: &mut dyn FnMut()) -> (Option<PathB<Self>>, Option<PathB<Self>>);
+    fn search_path_twice(root: &Self::Node, cfg: &SearchCfg, calls: usize, between: &mut dyn FnMut()) -> Vec<Option<PathB<Self>>>;
     /// search_path() followed by a different terminal (search / search_cycle) on the same search object
     fn search_path_then(root: &Self::Node, cfg: &SearchCfg, second: Term) -> SearchRes<Self>;
     /// the same ordering object asked twice
-    fn order_twice(root: &Self::Node, cfg: &OrderCfg, between: &mut dyn FnMut()) -> (OrderRes<Self>, OrderRes<Self>);
+    fn order_twice(root: &Self::Node, cfg: &OrderCfg, calls: usize, between: &mut dyn FnMut()) -> Vec<OrderRes<Self>>;
 
     // ---- containers
     fn g_new() -> Self::Graph;
@@ -359,7 +359,7 @@ macro_rules! search_body {
 }
 
 macro_rules! twice_body {
-    ($root:expr, $cfg:expr, $between:expr, $ctor:ident, $prio:tt, $tr:tt) => {{
+    ($root:expr, $cfg:expr, $calls:expr, $between:expr, $ctor:ident, $prio:tt, $tr:tt) => {{
         let cfg: &SearchCfg = $cfg;
         let tk: Key = cfg.target.unwrap_or(0);
         let mut b = $root.$ctor();
@@ -368,10 +368,15 @@ macro_rules! twice_body {
             b = b.target(&tk);
         }
         search_body!(@tr b, cfg, $tr);
-        let first = b.search_path();
-        $between();
-        let second = b.search_path();
-        (wrap_path!(first), wrap_path!(second))
+        let mut out = vec![];
+        for i in 0..$calls {
+            let r = b.search_path();
+            out.push(wrap_path!(r));
+            if i + 1 < $calls {
+                $between();
+            }
+        }
+        out
     }};
 }
 macro_rules! then_body {
@@ -393,23 +398,22 @@ macro_rules! then_body {
     }};
 }
 macro_rules! order_twice_body {
-    ($root:expr, $cfg:expr, $between:expr, $mk:expr, $tr:tt) => {{
+    ($root:expr, $cfg:expr, $calls:expr, $between:expr, $mk:expr, $tr:tt) => {{
         let cfg: &OrderCfg = $cfg;
         #[allow(unused_mut)]
         let mut o = $mk;
         order_body!(@tr o, cfg, $tr);
-        match cfg.term {
-            OTerm::Nodes => {
-                let first = o.search_nodes();
+        let mut out = vec![];
+        for i in 0..$calls {
+            out.push(match cfg.term {
+                OTerm::Nodes => OrderRes::Nodes(o.search_nodes()),
+                OTerm::Edges => OrderRes::Edges(o.search_edges()),
+            });
+            if i + 1 < $calls {
                 $between();
-                (OrderRes::Nodes(first), OrderRes::Nodes(o.search_nodes()))
-            }
-            OTerm::Edges => {
-                let first = o.search_edges();
-                $between();
-                (OrderRes::Edges(first), OrderRes::Edges(o.search_edges()))
             }
         }
+        out
     }};
 }
 
@@ -713,15 +717,15 @@ macro_rules! directed_flavour {
             fn order(root: &Self::Node, cfg: &OrderCfg, m: Meth<Self>) -> OrderRes<Self> {
                 order_body!(root, cfg, m, Self::Edge, if cfg.ord == Ordk::Pre { root.preorder() } else { root.postorder() }, yes)
             }
-            fn search_path_twice(root: &Self::Node, cfg: &SearchCfg, between: &mut dyn FnMut()) -> (Option<PathB<Self>>, Option<PathB<Self>>) {
+            fn search_path_twice(root: &Self::Node, cfg: &SearchCfg, calls: usize, between: &mut dyn FnMut()) -> Vec<Option<PathB<Self>>> {
                 match cfg.algo {
-                    Algo::Bfs => twice_body!(root, cfg, between, bfs, no, yes),
-                    Algo::Dfs => twice_body!(root, cfg, between, dfs, no, yes),
-                    _ => twice_body!(root, cfg, between, pfs, yes, yes),
+                    Algo::Bfs => twice_body!(root, cfg, calls, between, bfs, no, yes),
+                    Algo::Dfs => twice_body!(root, cfg, calls, between, dfs, no, yes),
+                    _ => twice_body!(root, cfg, calls, between, pfs, yes, yes),
                 }
             }
-            fn order_twice(root: &Self::Node, cfg: &OrderCfg, between: &mut dyn FnMut()) -> (OrderRes<Self>, OrderRes<Self>) {
-                order_twice_body!(root, cfg, between, if cfg.ord == Ordk::Pre { root.preorder() } else { root.postorder() }, yes)
+            fn order_twice(root: &Self::Node, cfg: &OrderCfg, calls: usize, between: &mut dyn FnMut()) -> Vec<OrderRes<Self>> {
+                order_twice_body!(root, cfg, calls, between, if cfg.ord == Ordk::Pre { root.preorder() } else { root.postorder() }, yes)
             }
             fn search_path_then(root: &Self::Node, cfg: &SearchCfg, second: Term) -> SearchRes<Self> {
                 match cfg.algo {
@@ -791,15 +795,15 @@ macro_rules! undirected_flavour {
             fn order(root: &Self::Node, cfg: &OrderCfg, m: Meth<Self>) -> OrderRes<Self> {
                 order_body!(root, cfg, m, Self::Edge, if cfg.ord == Ordk::Pre { root.order().pre() } else { root.order().post() }, no)
             }
-            fn search_path_twice(root: &Self::Node, cfg: &SearchCfg, between: &mut dyn FnMut()) -> (Option<PathB<Self>>, Option<PathB<Self>>) {
+            fn search_path_twice(root: &Self::Node, cfg: &SearchCfg, calls: usize, between: &mut dyn FnMut()) -> Vec<Option<PathB<Self>>> {
                 match cfg.algo {
-                    Algo::Bfs => twice_body!(root, cfg, between, bfs, no, no),
-                    Algo::Dfs => twice_body!(root, cfg, between, dfs, no, no),
-                    _ => twice_body!(root, cfg, between, pfs, yes, no),
+                    Algo::Bfs => twice_body!(root, cfg, calls, between, bfs, no, no),
+                    Algo::Dfs => twice_body!(root, cfg, calls, between, dfs, no, no),
+                    _ => twice_body!(root, cfg, calls, between, pfs, yes, no),
                 }
             }
-            fn order_twice(root: &Self::Node, cfg: &OrderCfg, between: &mut dyn FnMut()) -> (OrderRes<Self>, OrderRes<Self>) {
-                order_twice_body!(root, cfg, between, if cfg.ord == Ordk::Pre { root.order().pre() } else { root.order().post() }, no)
+            fn order_twice(root: &Self::Node, cfg: &OrderCfg, calls: usize, between: &mut dyn FnMut()) -> Vec<OrderRes<Self>> {
+                order_twice_body!(root, cfg, calls, between, if cfg.ord == Ordk::Pre { root.order().pre() } else { root.order().post() }, no)
             }
             fn search_path_then(root: &Self::Node, cfg: &SearchCfg, second: Term) -> SearchRes<Self> {
                 match cfg.algo {
